@@ -37,27 +37,24 @@ def scrut_is_param(fn, m):
 
 
 def vendor_decode(F):
-    """set of bytes b with VendorOperation::try_from(b) = Ok(VendorOperation(b))"""
+    """set of bytes b with VendorOperation::try_from(b) = Ok(VendorOperation(b)) — from the path literals
+    of the function (match table, if/else chain, range.contains ... all normalise to value sets)"""
     fn = F.trait_impl_fn(VTRY, "try_from")
     if fn is None:
         raise T.Unreadable("anchor missing: impl TryFrom<u8> for VendorOperation")
-    m, rows = T.conversion_table(fn, F)
-    if not scrut_is_param(fn, m):
-        raise T.Unreadable("VendorOperation::try_from does not match on its argument")
+    A, rows = T.site_table(fn, F)
+    if A.tries:
+        raise T.Unreadable("VendorOperation::try_from has `?` exits")
     ok = set()
-    for b in range(256):
-        r = T.first_match(rows, b)
-        if r is None or r["kind"] != "ok":
+    for r in rows:
+        if r["kind"] != "ok":
             continue
         res = H.strip_block(r["res"])
-        if not (res.get("k") == "call" and res.get("ctor") == VEND and len(res["args"]) == 1):
-            raise T.Unreadable("VendorOperation::try_from Ok arm is not VendorOperation(code)")
-        arg_id = H.local_id(res["args"][0])
-        binds = dict((i, n) for n, i in H.pat_bindings(r["arm"]["pat"]))
-        scr_id = H.local_id(m["scrut"])
-        if arg_id not in binds and arg_id != scr_id:
-            raise T.Unreadable("VendorOperation::try_from wraps something other than the matched byte")
-        ok.add(b)
+        if not (res.get("k") == "call" and res.get("ctor") in (VEND, "Self:" + VEND) and len(res["args"]) == 1):
+            raise T.Unreadable("VendorOperation::try_from Ok result is not VendorOperation(code)")
+        if H.local_id(A.subst(res["args"][0])) not in r["var_ids"]:
+            raise T.Unreadable("VendorOperation::try_from wraps something other than the byte it was given")
+        ok |= r["vals"]
     return ok
 
 
@@ -65,44 +62,46 @@ def decode_table(F):
     fn = F.trait_impl_fn(TRY, "try_from")
     if fn is None:
         raise T.Unreadable("anchor missing: impl TryFrom<u8> for Operation")
-    m, rows = T.conversion_table(fn, F)
-    if not scrut_is_param(fn, m):
-        raise T.Unreadable("Operation::try_from does not match on its argument")
-    vend_ok = None
+    A, rows = T.site_table(fn, F)
     vtry = F.trait_impl_fn(VTRY, "try_from")
+    vend_ok = None
     out = {}
-    for b in range(256):
-        r = T.first_match(rows, b)
-        if r is None:
-            raise T.Unreadable("non-exhaustive table")
-        if r["kind"] == "err":
-            out[b] = ("reject",)
+    for r in rows:
+        if not r["vals"]:
             continue
+        if r["kind"] == "err":
+            for b in r["vals"]:
+                out[b] = ("reject",)
+            continue
+        if r["kind"] != "ok":
+            raise T.Unreadable("Operation::try_from has a result that is neither Ok nor Err")
         res = H.strip_block(r["res"])
         kind, c = T.result_value(res, F)
         if kind != "ctor" or not c.startswith(OPER + "::"):
-            raise T.Unreadable("arm result is not an Operation variant")
+            raise T.Unreadable("result is not an Operation variant")
         name = c.split("::")[-1]
         if res.get("k") == "call":
-            # Vendor(VendorOperation::try_from(code)?)
             if name != "Vendor" or len(res["args"]) != 1:
                 raise T.Unreadable("unexpected data-carrying Operation variant " + name)
-            a = H.strip_block(res["args"][0])
+            a = H.strip_block(A.subst(res["args"][0]))
             if a.get("k") != "try":
                 raise T.Unreadable("Vendor payload is not `VendorOperation::try_from(code)?`")
             call = H.strip_block(a["e"])
-            if not (call.get("k") in ("call", "mcall") and call.get("resolved", call.get("callee")) == (vtry["path"] if vtry else None)):
+            target = H.conversion_impl(call) if call.get("k") in ("call", "mcall") else None
+            if target != VTRY and call.get("resolved", call.get("callee")) != (vtry["path"] if vtry else None):
                 raise T.Unreadable("Vendor payload does not come from VendorOperation::try_from")
-            args = ([call["recv"]] if call["k"] == "mcall" else []) + call["args"]
-            arg_id = H.local_id(args[0])
-            binds = dict((i, n) for n, i in H.pat_bindings(r["arm"]["pat"]))
-            if arg_id not in binds and arg_id != H.local_id(m["scrut"]):
+            if H.local_id(A.subst(H.call_args(call)[0])) not in r["var_ids"]:
                 raise T.Unreadable("Vendor payload is built from something other than the matched byte")
             if vend_ok is None:
                 vend_ok = vendor_decode(F)
-            out[b] = ("vendor", b) if b in vend_ok else ("reject",)
+            for b in r["vals"]:
+                out[b] = ("vendor", b) if b in vend_ok else ("reject",)
         else:
-            out[b] = ("op", name)
+            for b in r["vals"]:
+                out[b] = ("op", name)
+    missing = [b for b in range(256) if b not in out]
+    if missing:
+        raise T.Unreadable("bytes %s are not covered by any result of Operation::try_from" % missing[:4])
     return out, fn
 
 
